@@ -300,6 +300,8 @@ func (in *interp) stmt(s ast.Stmt, env *Env, st *Store, k kont, ret rkont) *tree
 				v := opaque
 				if i < len(vs.Values) {
 					v = in.eval(vs.Values[i], env, st)
+				} else if sel, ok := vs.Type.(*ast.SelectorExpr); ok && sel.Sel.Name == "Address" {
+					v = val{k: "evmaddr"} // var a common.Address: the zero address (not the receiver's)
 				}
 				e = in.define(e, st, n.Name, v)
 			}
@@ -509,6 +511,8 @@ func (in *interp) condVal(e ast.Expr, env *Env, st *Store) val {
 				return val{k: "const", flag: eq}
 			case "err":
 				return val{k: "sym", key: l.key, g: errGuard(l.s), fail: true, neg: eq} // symbol true = non-nil
+			case "msg", "closure", "func", "addr":
+				return val{k: "const", flag: !eq} // NewMsgConvertCoin returns the address of a fresh message: never nil
 			}
 			return unknown()
 		}
@@ -768,7 +772,23 @@ func (in *interp) pureCall(c *ast.CallExpr, env *Env, st *Store) []val {
 		}
 		return []val{opaque}
 	case "len":
+		if arg(0).k == "evmaddr" {
+			return []val{{k: "int", n: 20}} // len of a [20]byte
+		}
 		return []val{{k: "len", flag: arg(0).k == "recv", n: 0}}
+	case "copy":
+		// copy(addr[:], receiver) on a path on which len(receiver) == 20 was established = common.BytesToAddress(receiver)
+		if len(c.Args) == 2 {
+			if sl, ok := c.Args[0].(*ast.SliceExpr); ok && sl.Low == nil && sl.High == nil {
+				if id, ok := sl.X.(*ast.Ident); ok {
+					if cl, found := env.lookup(id.Name); found && st.cells[cl].k == "evmaddr" {
+						differs, known := st.facts["len#0#20"]
+						st.cells[cl] = val{k: "evmaddr", flag: arg(1).k == "recv" && known && !differs}
+						return []val{opaque}
+					}
+				}
+			}
+		}
 	case "IBCDenom":
 		if len(args) == 3 {
 			in.denomCalls++
